@@ -231,7 +231,12 @@ class FJLexer(sly.Lexer):
             elif n[1] in 'bB':
                 t.value = int(n, 2)
             else:
-                t.value = int(n)
+                try:
+                    t.value = int(n)
+                except ValueError:
+                    # python refuses to convert decimal strings of more than ~4300 digits (sys.get_int_max_str_digits)
+                    syntax_error(self.lineno, f'the decimal number is too long ({len(n)} digits). write it in hex.')
+                    t.value = 0
         else:
             t.value = int(t.value)
         return t
@@ -520,7 +525,10 @@ class FJParser(sly.Parser):
                 f'Maybe missing }} or {{ before this line?'
             )
         else:
-            error_string = f'Syntax Error in {get_position(token.lineno)}, token=("{token.type}", {token.value})'
+            value = token.value
+            if isinstance(value, int) and value.bit_length() > 4096:
+                value = hex(value)  # python refuses to print huge ints in decimal
+            error_string = f'Syntax Error in {get_position(token.lineno)}, token=("{token.type}", {value})'
 
         all_errors += f"{error_string}\n"
         print(error_string)
